@@ -47,7 +47,24 @@ def evaluate(m, wngrid=None):
     return np.array(g, float), np.array(s, float), np.array(t, float)
 
 
-def run_history(r, hist, build, tag, extra_eval=None, env_apply=None, as_numpy=False):
+def evaluate_entry(m, entry, wngrid=None):
+    """The model evaluated through one of its per-source entry points: every flux (and transmittance / optical depth)
+    array it returns, in a fixed order."""
+    kw = {} if wngrid is None else {'wngrid': wngrid}
+    out = []
+    if entry == 'contrib':
+        g, d = m.model_contrib(**kw)
+        for name in sorted(d):
+            out += [np.array(d[name][0], float), np.array(d[name][1], float)]
+    else:
+        g, d = m.model_full_contrib(**kw)
+        for name in sorted(d):
+            for comp in sorted(d[name], key=lambda c: c[0]):
+                out += [np.array(comp[1], float), np.array(comp[2], float)]
+    return [np.array(g, float)] + out
+
+
+def run_history(r, hist, build, tag, extra_eval=None, env_apply=None, as_numpy=False, entry='model'):
     """build() -> fresh model with caches installed (must call fx.reset_caches itself when the
     opacity tables are process-wide).  The live model and every fresh model share the installed
     opacity tables (they are inputs, not state under test)."""
@@ -96,6 +113,28 @@ def run_history(r, hist, build, tag, extra_eval=None, env_apply=None, as_numpy=F
                     continue
                 r.check(back == float(v_) or abs(back - float(v_)) <= 1e-12 * abs(float(v_)), 'parameter-reads-back',
                         'history-readback/%s/%s' % (tag, n_), param=n_, written=v_, read=back, hist=hist[:k + 1])
+        if entry != 'model' and k == len(hist) - 1:
+            # the FIRST evaluation after the last update goes through a per-source entry point (nothing has refreshed
+            # the live model yet): it must see the new settings exactly as a fresh model does
+            try:
+                got_e = evaluate_entry(live, entry, None if win[0] is None else np.array(win[0], dtype=float))
+                fresh_e = build()
+                if env[0] is not None:
+                    env_apply(env[0])
+                for n_ in sorted(net):
+                    apply_op(fresh_e, [n_, net[n_]])
+                want_e = evaluate_entry(fresh_e, entry, None if win[0] is None else np.array(win[0], dtype=float))
+            except Exception:
+                got_e = want_e = None       # an invalid model: judged below through model()
+            if got_e is not None:
+                same_shape = len(got_e) == len(want_e) and all(a.shape == b.shape for a, b in zip(got_e, want_e))
+                if r.check(same_shape, 'history-entry-point', 'history-entry-shape/%s/%s' % (entry, sig), hist=hist):
+                    for a, b in zip(got_e, want_e):
+                        if not r.eq(a, b, 'history-entry-point', 'history-entry/%s/%s' % (entry, sig), rtol=1e-12,
+                                    atol=1e-300, hist=hist):
+                            break
+                if extra_eval is not None and not getattr(extra_eval, 'wants_net', False):
+                    extra_eval(r, live, fresh_e, sig + '/via-' + entry)
         try:
             got = ev(live)
         except Exception as e:
